@@ -540,7 +540,7 @@ func (c *Check) Finish() int {
 		"level":       "proof",
 		"wall_s":      time.Since(c.Start).Seconds(),
 		"violations":  len(viol),
-		"assumptions": c.Assume,
+		"assumptions": append([]string{}, c.Assume...),
 		"coverage": map[string]interface{}{
 			"obligations":              claimed,
 			"discharged":               discharged,
